@@ -227,7 +227,8 @@ Definition pc_ok (s : shared) (c : client) (p : pcT) : Prop :=
   | PCAppend i n => In (EvClaim n i c) (log s)
   | PCRm _ who i n st _ => In (EvClaim n i who) (log s) /\ (st = RmDelIdx -> idx s n = Some i)
   | PCDList _ => True
-  | PCUSet i n _ _ _ => In (EvClaim n i c) (log s)
+  | PCUSet i n who _ _ _ => In (EvClaim n i who) (log s)
+  | PCUFGet _ _ _ _ _ _ => True
   | PCLRec h n i _ => n = extractDomain h /\ exists c', In (EvClaim n i c') (log s)
   | PCClScan _ _ _ => True
   | PCClDGet _ _ => True
@@ -293,7 +294,7 @@ Lemma thr_stable a s x :
 Proof.
   intros Hs Hp (Hh & Ho & Hpc) Hg.
   split; [now apply H_ok_mono|split; [now apply O_ok_mono|]].
-  unfold guards_of in Hg. destruct (pc x) as [| | | | | |k who i n st e| | | | | | | | | |]; cbn in *; try contradiction; auto.
+  unfold guards_of in Hg. destruct (pc x) as [| | | | | |k who i n st e| | | | | | | | | | |]; cbn in *; try contradiction; auto.
   - now apply cexists_mono.
   - destruct Hpc as [Hq Hc0]. split; [now apply own_mono|exact Hc0].
   - now apply log_mono.
@@ -379,17 +380,17 @@ Section Steps.
     cbn [exec]. now apply ok_goto.
   Qed.
 
-  Lemma decide_ok s t : ShInv s -> ThrOk s t -> step_ok s t (decide true true true true true reg cloud t s).
+  Lemma decide_ok s t : ShInv s -> ThrOk s t -> step_ok s t (decide true true true true true true reg cloud t s).
   Proof.
     intros Hs (Hh & Ho & Hpc). pose proof Hs as (Hidx & Hlok & Hown & Hfresh & Hrec & Httl & Hpos).
     unfold decide. destruct (next_fault t) as [f fs].
-    destruct (pc t) as [|sub base tgt|v sub base tgt|i n tgt|i n tgt|i n|k who i n st e|i n|i n|i n|i|i|i n st ex tgt|h n i now|now todo acc|dels cnt|c i rest cnt] eqn:Epc;
+    destruct (pc t) as [|sub base tgt|v sub base tgt|i n tgt|i n tgt|i n|k who i n st e|i n|i n|i n|i|i|i n who st ex tgt|h n i now|now todo acc|dels cnt|c i rest cnt|i n c st ex tgt] eqn:Epc;
       cbn in Hpc; try contradiction.
     - (* Idle *)
       destruct (ops t) as [|o rest] eqn:Eops.
       { unfold step_ok; cbn [fst snd exec]. split; [exact I|split; [|cbn; left; reflexivity]].
         unfold ThrOk. rewrite Epc. cbn. auto. }
-      destruct o as [sub base tgt|r|k st ex tgt|h now|now|].
+      destruct o as [sub base tgt|r|k st ex tgt|h now|now| |i0 vc vn st ex tgt].
       + (* create: SetNX of the counter key *)
         destruct f; [apply step_finish; auto; exact I|].
         unfold step_ok; cbn [fst snd]. split; [exact I|].
@@ -427,6 +428,11 @@ Section Steps.
       + (* the clock passes the counter's deadline: it has none *)
         unfold step_ok; cbn [fst snd]. split; [exact I|split; [|cbn [guard_rel]; right; reflexivity]].
         apply ok_finish; auto using H_ok_mono, O_ok_mono; try exact I.
+      + (* forged update: GetMapping *)
+        destruct f; [apply step_finish; auto; exact I|].
+        destruct (recs s i0) as [m|]; [|apply step_finish; auto; exact I].
+        apply step_goto_none; [assumption|assumption|exact I|].
+        unfold guards_of. rewrite Epc. cbn. left; reflexivity.
     - (* Incr *)
       unfold incr_step. destruct f; [apply step_finish; auto; exact I|].
       unfold step_ok; cbn [fst snd]. split; [exact Hpc|]. unfold after_incr.
@@ -548,6 +554,16 @@ Section Steps.
         unfold step_ok; cbn [fst snd]. split; [exact I|split; [exact H1|cbn [guard_rel]; right; exact H2]].
       + destruct (ok_cl_del (exec (ARemove c i) s) t fs rest (cnt + 1)) as [H1 H2]; auto using H_ok_mono, O_ok_mono.
         unfold step_ok; cbn [fst snd]. split; [exact I|split; [exact H1|cbn [guard_rel]; right; exact H2]].
+    - (* UpdateMapping with a forged payload: accepted only if name AND client id are the stored ones *)
+      destruct f; [apply step_finish; auto; exact I|].
+      destruct (recs s i) as [m|] eqn:Er; [|apply step_finish; auto; exact I].
+      destruct (negb (name_eqb (r_name m) n && Z.eqb (r_client m) c)) eqn:Ec; [apply step_finish; auto; exact I|].
+      destruct (N.eqb tgt 0 || negb (Z.ltb 0 c)); [apply step_finish; auto; exact I|].
+      apply negb_false_iff, andb_prop in Ec. destruct Ec as [E1 E2].
+      apply name_eqb_eq in E1. apply Z.eqb_eq in E2.
+      apply step_goto_none; [assumption|assumption| |].
+      * cbn. destruct (Hrec _ _ Er) as [H1 _]. rewrite E1, E2 in H1. exact H1.
+      * unfold guards_of. rewrite Epc. cbn. left; reflexivity.
   Qed.
 End Steps.
 
@@ -557,7 +573,7 @@ End Steps.
 
 Section Sys.
   Variables reg cloud : name -> option pmap.
-  Notation dstepF := (dstep true true true true true reg cloud).
+  Notation dstepF := (dstep true true true true true true reg cloud).
 
   Definition GInv (s : shared * list thr) : Prop :=
     ShInv (fst s) /\
@@ -590,7 +606,7 @@ Section Sys.
     destruct s as [sh ls]. unfold GInv, sys_step. cbn [fst snd].
     intros (Hs & Hnd & Hmk & Hth).
     destruct (nth_error ls k) as [t|] eqn:Ek; [|cbn; auto].
-    unfold dstep. destruct (decide true true true true true reg cloud t sh) as [t' a] eqn:Ed. cbn [fst snd].
+    unfold dstep. destruct (decide true true true true true true reg cloud t sh) as [t' a] eqn:Ed. cbn [fst snd].
     destruct (nth_error_split_upd ls k t t' Ek) as (l1 & l2 & El & Eu). rewrite Eu. subst ls.
     assert (Ht : ThrOk sh t) by (apply Hth, in_or_app; right; now left).
     pose proof (decide_ok reg cloud sh t Hs Ht) as Hok. rewrite Ed in Hok.
@@ -662,7 +678,7 @@ Section Sys.
   Qed.
 
   Theorem ginv_all_schedules ts sched :
-    (forall t, In t ts -> fresh_thr t) -> GInv (drun true true true true true reg cloud empty_store ts sched).
+    (forall t, In t ts -> fresh_thr t) -> GInv (drun true true true true true true reg cloud empty_store ts sched).
   Proof.
     intros Hf. unfold drun. apply inv_all_schedules; [intros s i; apply ginv_step|now apply ginv_init].
   Qed.
@@ -813,7 +829,7 @@ Section Consequences.
     idx s n = None /\
     (forall h now h' i c tg, extractDomain h = n -> lookup_now reg cloud s h now <> RRouted 1 h' i c tg) /\
     (forall t i tgt fs, pc t = PCSetNX i n tgt -> next_fault t = (false, fs) ->
-       decide true true true true true reg cloud t s = (goto t fs (PCSetRec i n tgt), AClaim n i (cl t))).
+       decide true true true true true true reg cloud t s = (goto t fs (PCSetRec i n tgt), AClaim n i (cl t))).
   Proof.
     intros Hs Hh. pose proof Hs as (Hidx & _). assert (Hi : idx s n = None) by (rewrite Hidx; exact Hh).
     split; [exact Hi|split].
@@ -829,7 +845,7 @@ Section Consequences.
   Lemma foreign_delete_refused t s r rest m fs :
     pc t = Idle -> ops t = ODelete r :: rest -> next_fault t = (false, fs) ->
     recs s (resolve t r) = Some m -> r_client m <> cl t ->
-    dstep true true true true true reg cloud t s = (finish t fs (RErr EForbidden), s).
+    dstep true true true true true true reg cloud t s = (finish t fs (RErr EForbidden), s).
   Proof.
     intros Hp Ho Hf Hr Hc. unfold dstep, decide. rewrite Hf, Hp, Ho, Hr.
     apply Z.eqb_neq in Hc. rewrite Hc. reflexivity.
@@ -838,7 +854,7 @@ Section Consequences.
   (* second read of a lookup: an inactive or expired record is an error, not a fall-through to the other sources *)
   Lemma inactive_or_expired_step t s h n i now m fs :
     pc t = PCLRec h n i now -> next_fault t = (false, fs) -> recs s i = Some m -> is_active m now = false ->
-    dstep true true true true true reg cloud t s =
+    dstep true true true true true true reg cloud t s =
       (finish t fs (RErr (if is_expired m now then EForbidden else EUnavailable)), s).
   Proof.
     intros Hp Hf Hr Ha. unfold dstep, decide. rewrite Hf, Hp, Hr, Ha. destruct (is_expired m now); reflexivity.
@@ -849,7 +865,7 @@ Section Consequences.
   Lemma unbound_delete_refused t s r rest m fs :
     ShInv s -> pc t = Idle -> ops t = ODelete r :: rest -> next_fault t = (false, fs) ->
     recs s (resolve t r) = Some m -> (cl t <= 0)%Z ->
-    dstep true true true true true reg cloud t s = (finish t fs (RErr EForbidden), s).
+    dstep true true true true true true reg cloud t s = (finish t fs (RErr EForbidden), s).
   Proof.
     intros Hs Hp Ho Hf Hr Hc. apply (foreign_delete_refused t s r rest m fs Hp Ho Hf Hr).
     pose proof (stored_client_positive s _ _ Hs Hr). lia.
@@ -858,7 +874,7 @@ Section Consequences.
   (* CreateMapping by such an id draws an id and is then refused by validation: nothing is claimed or stored *)
   Lemma unbound_create_refused t s sub base tgt fs :
     pc t = PCIncr sub base tgt -> next_fault t = (false, fs) -> (cl t <= 0)%Z ->
-    dstep true true true true true reg cloud t s =
+    dstep true true true true true true reg cloud t s =
       (finish t fs (RErr EValidation), exec (AIncr (cl t) (full_domain sub base)) s).
   Proof.
     intros Hp Hf Hc. unfold dstep, decide. rewrite Hf, Hp. unfold incr_step, after_incr, valid_create.
@@ -868,7 +884,7 @@ Section Consequences.
   (* the expiry cleanup only ever selects mappings it has read as expired; the others are left alone *)
   Lemma cleanup_skips_unexpired t s now i rest acc m fs :
     pc t = PCClScan now (i :: rest) acc -> next_fault t = (false, fs) -> recs s i = Some m -> is_expired m now = false ->
-    dstep true true true true true reg cloud t s = (cl_scan_next t fs now rest acc, s).
+    dstep true true true true true true reg cloud t s = (cl_scan_next t fs now rest acc, s).
   Proof.
     intros Hp Hf Hr He. unfold dstep, decide. rewrite Hf, Hp, Hr, He. reflexivity.
   Qed.
@@ -876,7 +892,7 @@ Section Consequences.
   (* ... and it deletes with the mapping's own client id: a record whose owner changed in between is skipped *)
   Lemma cleanup_acts_as_owner t s i c rest cnt m fs :
     pc t = PCClDGet ((i, c) :: rest) cnt -> next_fault t = (false, fs) -> recs s i = Some m -> r_client m <> c ->
-    dstep true true true true true reg cloud t s = (cl_del t fs rest cnt, s).
+    dstep true true true true true true reg cloud t s = (cl_del t fs rest cnt, s).
   Proof.
     intros Hp Hf Hr Hc. unfold dstep, decide. rewrite Hf, Hp, Hr. apply Z.eqb_neq in Hc. rewrite Hc. reflexivity.
   Qed.
@@ -911,13 +927,13 @@ Section Consequences.
   (* the only step that can answer "routed from the repository" is the second read of a lookup, on a record that is
      active and unexpired at the lookup time; the answer is that record's client and target *)
   Lemma routed_only_from_active t s t' a h i c tg :
-    decide true true true true true reg cloud t s = (t', a) -> out t' = RRouted 1 h i c tg :: out t ->
+    decide true true true true true true reg cloud t s = (t', a) -> out t' = RRouted 1 h i c tg :: out t ->
     exists m n now, pc t = PCLRec h n i now /\ recs s i = Some m /\ is_active m now = true /\
                     c = r_client m /\ tg = r_target m.
   Proof.
     unfold decide, incr_step, after_incr, rollback_after_setrec, rollback_after_append, rm_end, cl_scan_next, cl_del.
     destruct (next_fault t) as [f fs].
-    destruct (pc t) as [|sub base tgt|v sub base tgt|i0 n tgt|i0 n tgt|i0 n|k who i0 n st e|i0 n|i0 n|i0 n|i0|i0|i0 n st ex tgt|h0 n i0 now|now todo acc|dels cnt|c0 i0 rest cnt] eqn:Epc.
+    destruct (pc t) as [|sub base tgt|v sub base tgt|i0 n tgt|i0 n tgt|i0 n|k who i0 n st e|i0 n|i0 n|i0 n|i0|i0|i0 n who0 st ex tgt|h0 n i0 now|now todo acc|dels cnt|c0 i0 rest cnt|i0 n c0 st ex tgt] eqn:Epc.
     all: repeat match goal with
                 | |- context [match ?x with _ => _ end] => destruct x eqn:?
                 end.
@@ -933,7 +949,7 @@ Section Consequences.
      entry (first read) or no record behind the index entry (second read); the answer is then the registry's entry for that
      very name, else cloud control's, and only if that entry is active, not revoked and unexpired *)
   Lemma legacy_answer_only_without_repository_mapping t s t' a src h i c tg :
-    decide true true true true true reg cloud t s = (t', a) -> out t' = RRouted src h i c tg :: out t -> src <> 1 ->
+    decide true true true true true true reg cloud t s = (t', a) -> out t' = RRouted src h i c tg :: out t -> src <> 1 ->
     exists n now,
       fst (next_fault t) = false /\          (* the repository read of this step did NOT fail *)
       ((pc t = Idle /\ n = extractDomain h /\ idx s n = None) \/ (exists j, pc t = PCLRec h n j now /\ recs s j = None)) /\
@@ -943,7 +959,7 @@ Section Consequences.
   Proof.
     unfold decide, incr_step, after_incr, rollback_after_setrec, rollback_after_append, rm_end, cl_scan_next, cl_del.
     destruct (next_fault t) as [f fs].
-    destruct (pc t) as [|sub base tgt|v sub base tgt|i0 n tgt|i0 n tgt|i0 n|k who i0 n st e|i0 n|i0 n|i0 n|i0|i0|i0 n st ex tgt|h0 n i0 now|now todo acc|dels cnt|c0 i0 rest cnt] eqn:Epc.
+    destruct (pc t) as [|sub base tgt|v sub base tgt|i0 n tgt|i0 n tgt|i0 n|k who i0 n st e|i0 n|i0 n|i0 n|i0|i0|i0 n who0 st ex tgt|h0 n i0 now|now todo acc|dels cnt|c0 i0 rest cnt|i0 n c0 st ex tgt] eqn:Epc.
     all: repeat match goal with
                 | |- context [match ?x with _ => _ end] => destruct x eqn:?
                 end.
@@ -964,16 +980,30 @@ Section Consequences.
   Lemma faulted_lookup_rejected t s fs :
     next_fault t = (true, fs) ->
     ((exists h now rest, pc t = Idle /\ ops t = OLookup h now :: rest) \/ (exists h n i now, pc t = PCLRec h n i now)) ->
-    dstep true true true true true reg cloud t s = (finish t fs (RErr EStorage), s).
+    dstep true true true true true true reg cloud t s = (finish t fs (RErr EStorage), s).
   Proof.
     intros Hf [(h & now & rest & Hp & Ho)|(h & n & i & now & Hp)]; unfold dstep, decide; rewrite Hf, Hp; [rewrite Ho|]; reflexivity.
   Qed.
 
 
+  (* UpdateMapping never changes the owner: a payload whose client id (or name) differs from the stored record's is refused,
+     the store is untouched *)
+  Lemma update_cannot_change_owner t s i n c st ex tgt m fs :
+    pc t = PCUFGet i n c st ex tgt -> next_fault t = (false, fs) -> recs s i = Some m ->
+    (c <> r_client m \/ n <> r_name m) ->
+    dstep true true true true true true reg cloud t s = (finish t fs (RErr EInvalidReq), s).
+  Proof.
+    intros Hp Hf Hr Hd. unfold dstep, decide. rewrite Hf, Hp, Hr.
+    replace (name_eqb (r_name m) n && Z.eqb (r_client m) c) with false; [reflexivity|].
+    symmetry. apply andb_false_iff. destruct Hd as [Hd|Hd].
+    - right. apply Z.eqb_neq. congruence.
+    - left. apply name_eqb_neq. congruence.
+  Qed.
+
   Section Reach.
     Variables (ts : list thr) (sched : list nat).
     Hypothesis Hfresh : forall t, In t ts -> fresh_thr t.
-    Let s := drun true true true true true reg cloud empty_store ts sched.
+    Let s := drun true true true true true true reg cloud empty_store ts sched.
 
     Lemma reach_shinv : ShInv (fst s).
     Proof. exact (proj1 (ginv_all_schedules reg cloud ts sched Hfresh)). Qed.
@@ -996,7 +1026,7 @@ Section Consequences.
     Lemma reach_unbound_delete_refused t r rest m fs :
       pc t = Idle -> ops t = ODelete r :: rest -> next_fault t = (false, fs) ->
       recs (fst s) (resolve t r) = Some m -> (cl t <= 0)%Z ->
-      dstep true true true true true reg cloud t (fst s) = (finish t fs (RErr EForbidden), fst s).
+      dstep true true true true true true reg cloud t (fst s) = (finish t fs (RErr EForbidden), fst s).
     Proof. apply unbound_delete_refused. exact reach_shinv. Qed.
 
     (* in reachable states the second read of a lookup is for the name the Host resolves to *)
@@ -1045,7 +1075,7 @@ Section Consequences.
       idx (fst s) n = None /\
       (forall h now h' i' c' tg, extractDomain h = n -> lookup_now reg cloud (fst s) h now <> RRouted 1 h' i' c' tg) /\
       (forall t i' tgt fs, pc t = PCSetNX i' n tgt -> next_fault t = (false, fs) ->
-         decide true true true true true reg cloud t (fst s) = (goto t fs (PCSetRec i' n tgt), AClaim n i' (cl t))).
+         decide true true true true true true reg cloud t (fst s) = (goto t fs (PCSetRec i' n tgt), AClaim n i' (cl t))).
     Proof.
       intros E. pose proof reach_shinv as Hs. pose proof Hs as (_ & Hok & _).
       split.
